@@ -144,7 +144,10 @@ def caught (e : List Tok) : Tree :=
 /-- resume position and diagnostic of a failed item -/
 def recoverStep (m : RecMode) (ts e : List Tok) (msg : String) : List Tok × List Diag :=
   match m with
-  | .skipTok => (if e.length = ts.length then e.drop 1 else e, [⟨headRng e, msg⟩])
+  | .skipTok =>
+    -- an error at the very end of the slice is reported on the last token of the slice
+    let at_ := match e with | t :: _ => t.rng | [] => (match ts.getLast? with | some t => t.rng | none => Range.zero)
+    (if e.length = ts.length then e.drop 1 else e, [⟨at_, msg⟩])
   | .topSpan =>
     let last := match e with | t :: _ => t.rng | [] => (match ts.getLast? with | some t => t.rng | none => Range.zero)
     (if e.length = ts.length then e.drop 1 else e, [⟨Range.span (headRng ts) last, msg⟩])
